@@ -24,7 +24,8 @@ import objectives
 
 PROP = "C04"
 RULE = ("random objective (35% plateau/step or constant => many equal values), box, N=1..5, parameters; driven either by "
-        "Solve alone or by DoGlobalIteration batches (mostly size 1) followed by Solve, 20% with refineSolution=True; "
+        "Solve alone or by DoGlobalIteration batches (mostly size 1) followed by Solve, 20% with refineSolution=True; 6% 'blind' runs "
+        "(iterations, DoLocalRefinement, iterations, DoLocalRefinement with no listener and no GetResults before the end); "
         "40% of the batch-driven runs have NO listener attached and keep the Solution object returned by an early GetResults, which "
         "is examined after each further batch before fresh results are requested; "
         "the claim is tested at every observation moment (callbacks, after each call, returned Solution). Distinct by "
@@ -125,6 +126,15 @@ def _check_case(case, front):
                 held = run.solver.GetResults()
             if not ok:
                 break
+        if case.get("blind"):
+            # the user drives the phases and looks at the result only at the very END (no listener, no GetResults in between):
+            # iterations, a local refinement, more iterations, a second refinement
+            k1, k2 = case["blind"]
+            if run.iterate(k1):
+                run.refine(-1)
+                if run.iterate(k2):
+                    run.refine(-1)
+            observe(run, run.solver.GetResults(), "first GetResults after iterations / refinement / iterations / refinement", moments, vs, case)
         sol = run.solve()
         observe(run, sol, "returned Solution", moments, vs, case)
         observe(run, run.solver.GetResults(), "GetResults after Solve", moments, vs, case)
@@ -184,6 +194,12 @@ def gen(r):
         case["fresh_holder"] = True       # the objective returns a NEW value holder instead of filling in the one it was given
     if case.get("refine") and r.random() < 0.7 or r.random() < 0.05:
         case["post"] = [r.choice([1, 1, 2, 5, 20]) for _ in range(r.randint(1, 12))]
+    if r.random() < 0.06:
+        case["blind"] = [r.choice([2, 3, 5, 9]), r.choice([3, 6, 12, 25])]
+        case["bare"] = True
+        case["batches"] = []
+        for k_ in ("shipped", "bg", "post"):
+            case.pop(k_, None)
     if case["n"] <= 2 and not case.get("bare") and case["lim"] <= 40 and r.random() < 0.06:
         case["painter"] = True            # the shipped StaticPaintListener in front of the recording listener
     return case
